@@ -32,7 +32,7 @@ chk("C14", "static analysis: MIR delegation rules and one-step protocol decision
     "Each combinator's new remainder must be (the payload of) the same-named konst::string function applied to "
     "(old remainder, argument), Some/None mapped to Ok/Err with the method's ErrorKind (10 rows); the five split methods are "
     "compared as one-step decision tables over (exhausted flag, remainder empty, split_once/find Some/None) with the protocol "
-    "in the property text, including what is yielded, the new remainder and the new flag; only those five may write the flag; "
+    "in the property text, including what is yielded, the new remainder and the new flag; only those five may write the flag and every constructor starts with it clear; "
     "the 13 StdParser::parse_with impls must return the matching parse_* call; the integer/bool prefix parse (which has no free "
     "function to delegate to) is decided on the Parser::parse_* bodies with C12's rule set (sign byte, digit classes, multiply-add "
     "recurrence with both overflow exits, sign/limit table, consumed length, bool spellings). Covers all strings/patterns symbolically.",
